@@ -40,12 +40,19 @@ type c06Case struct {
 	Snap    int     `json:"snap"`    // snapshot position selector
 	Restart int     `json:"restart"` // restart position selector (>= snapshot)
 	Persist int     `json:"persist"` // how many further ops are applied before the snapshot is persisted (hashicorp/raft persists concurrently)
+	// Snap2 > 0: the restarted server takes another snapshot while it is still
+	// replaying the log (after replayed operation snap + Snap2 % (restart-snap)),
+	// and a third incarnation starts from that snapshot at the end
+	Snap2 int `json:"snap2,omitempty"`
 }
 
 var c06Replicas = []string{"x", "y", "z"}
 
 func genC06(t *rapid.T) c06Case {
 	c := c06Case{Snap: rapid.IntRange(0, 1000).Draw(t, "snap"), Restart: rapid.IntRange(0, 1000).Draw(t, "restart")}
+	if rapid.IntRange(0, 2).Draw(t, "snap-during-replay") == 0 {
+		c.Snap2 = rapid.IntRange(1, 1000).Draw(t, "snap2")
+	}
 	if rapid.IntRange(0, 2).Draw(t, "late-persist") == 0 {
 		c.Persist = rapid.IntRange(1, 4).Draw(t, "persist")
 	}
@@ -549,9 +556,28 @@ func runC06(c c06Case, o *vfutil.Obs) *vfutil.Failure {
 			return vfutil.Failf("C06/restore-error", "history %s, snapshot at %d: %v", hist, snap, err)
 		}
 	}
+	snap2, snap2Bytes := 0, []byte(nil)
+	if c.Snap2 > 0 && restart-snap >= 1 {
+		snap2 = snap + 1 + c.Snap2%(restart-snap) // after replayed op snap2 (1-based), snap < snap2 <= restart
+	}
 	for i := snap; i < restart; i++ {
 		if err := c06Apply(B2, raws[i], uint64(i+1), true); err != nil {
 			return vfutil.Failf("C06/replay-error", "history %s, snapshot at %d, restart at %d: replaying op %d (%s) failed: %v", hist, snap, restart, i, labels[i], err)
+		}
+		if i+1 == snap2 {
+			// a Raft snapshot falls into the replay (the snapshot timer, or more
+			// than the threshold of entries to replay): taken before the recovery
+			// is finished
+			sn, err := B2.Snapshot()
+			if err != nil {
+				return vfutil.Failf("C06/snapshot-error", "during replay: %v", err)
+			}
+			sink := &persistBuf{}
+			if err := sn.(*fsmSnapshot).Persist(sink); err != nil {
+				return vfutil.Failf("C06/persist-error", "during replay: %v", err)
+			}
+			snap2Bytes = append([]byte{}, sink.Bytes()...)
+			o.Label("snapshot-taken-during-replay")
 		}
 		if i == restart-1 {
 			if _, _, err := B2.finishedRecovery(uint64(i + 1)); err != nil {
@@ -607,6 +633,29 @@ func runC06(c c06Case, o *vfutil.Obs) *vfutil.Failure {
 		got := c06ReadValues(p.log)
 		if strings.Join(got, ",") != strings.Join(want, ",") {
 			return vfutil.Failf("C06/replay-lost-data", "history %s, snapshot after op %d, restart after op %d: partition %s holds %v after the restart, want %v", hist, snap, restart, k, got, want)
+		}
+	}
+	// 4. a third incarnation, from the snapshot taken during the replay: it
+	// replays everything behind that snapshot and must end where the others are
+	if snap2Bytes != nil {
+		c06Shutdown(B2)
+		B3 := vfBare(filepath.Join(root, "B"), "me")
+		defer c06Shutdown(B3)
+		if err := B3.Restore(rc{bytes.NewReader(snap2Bytes)}); err != nil {
+			return vfutil.Failf("C06/restore-error", "history %s, snapshot taken during the replay after op %d: %v", hist, snap2, err)
+		}
+		for i := snap2; i < n; i++ {
+			if err := c06Apply(B3, raws[i], uint64(i+1), true); err != nil {
+				return vfutil.Failf("C06/replay-error", "history %s, first snapshot after op %d, restart after op %d, snapshot taken during that replay after op %d: replaying op %d (%s) from it failed: %v", hist, snap, restart, snap2, i, labels[i], err)
+			}
+		}
+		if _, _, err := B3.finishedRecovery(uint64(n)); err != nil {
+			return vfutil.Failf("C06/recovery-error", "history %s, snapshot taken during the replay after op %d: %v", hist, snap2, err)
+		}
+		va, vb, ok := c06Eventually(func() (string, string) { return c06View(A), strings.ReplaceAll(c06View(B3), "/B/", "/A/") })
+		if !ok {
+			cls := c06DiffClass(va, vb)
+			return vfutil.Failf("C06/restart-changes-state/snapshot-during-replay/"+cls, "history %s, first snapshot after op %d, restart after op %d, second snapshot taken during that replay after op %d: a server started from the second snapshot differs from one that applied everything live:\n--- live\n%s--- restarted\n%s", hist, snap, restart, snap2, va, vb)
 		}
 	}
 	// classification
